@@ -6,9 +6,9 @@ EXPLANATION = ("Bounded symbolic checking (engine S, REAL mode) of the two-, thr
                "pattern of accepted/rejected probes is a separate explored path; derivative identities are rational-function identities decided by normal form.")
 FUNCTIONS = ["AbstractNumericalDerivative::{setParameters,setAllParametersValues,setParameterValue,setParametersValues,matchParametersValues,f,getFirstOrderDerivative,getSecondOrderDerivative (1,2 variables),setParametersToDerivate,setInterval}",
              "TwoPointsNumericalDerivative::updateDerivatives", "ThreePointsNumericalDerivative::updateDerivatives (incl. cross derivatives)", "FivePointsNumericalDerivative::updateDerivatives", "FunctionWrapper forwarding", "ParameterList::{createSubList,setParameters...}"]
-BOUNDS = ("functions of two variables; selected variables {x}, {y}, {x,y}, {y,x}; step 2^-7, 2^-14 or 2^-20 (forked); evaluation points and bounds real in [-10,10] (closed-interval constraints at least 2 wide, on either or both variables); "
+BOUNDS = ("functions of two variables (cross-derivative job: a cubic in three variables, three variable orders); selected variables {x}, {y}, {x,y}, {y,x}; step 2^-7, 2^-14 or 2^-20 (forked); evaluation points and bounds real in [-10,10] (closed-interval constraints at least 2 wide, on either or both variables); "
           "polynomial coefficients in [-10,10] with |f| < 1e6 at every probe; all six update entry points; cross derivatives on/off (three-point)")
-OUTSIDE = ["3-4 variables (a native demonstration with three variables is kept with the fix of the cross-derivative defects)", "convergence order on polynomials above the exactness degree", "symbolic step sizes (measured: probe positions become products of unknowns and the queries leave nlsat's reach)",
+OUTSIDE = ["4 variables; 3 variables except for the cross-derivative job", "convergence order on polynomials above the exactness degree", "symbolic step sizes (measured: probe positions become products of unknowns and the queries leave nlsat's reach)",
            "cross derivatives at a constraint limit (documented to raise)", "function values >= 1.7e23 (treated as undefined by the schemes)", "IEEE rounding (exact real arithmetic)"]
 ASSUMPTIONS = BASE_ASSUMPTIONS + ["|a| is introduced as t>=0 and (t=a or t=-a) instead of a path split (axiom listed in the evidence)"]
 LEVEL_TEXT = ("Bounded symbolic checking: transparency (function left at the requested point, value reported there) for every function and every pattern of rejected probes; exactness of first, second and cross derivatives on "
@@ -20,5 +20,6 @@ JOBS = [
     Job("transparency", "C12.cpp", ["HLO=0", "HHI=0"], env=E, budget_s=400, spurious_possible=True, desc="every entry point, every selection, constraints on either variable, cross derivatives on/off: function left at the requested point and value reported there"),
     Job("exactness", "C12.cpp", ["HLO=1", "HHI=1", "DEGMAX=4"], thorough_defines=["HLO=1", "HHI=1", "DEGMAX=5"], env=E, budget_s=300, thorough_budget_s=3000, desc="interior: first/second/cross derivatives equal the analytic ones on polynomials of the scheme's exactness degree"),
     Job("one-sided", "C12.cpp", ["HLO=2", "HHI=2"], env=E, budget_s=300, desc="on / next to a bound: no exception, one-sided first (linear) and second (quadratic) derivatives exact, function left at the requested point"),
-    Job("delegation", "C12.cpp", ["HLO=3", "HHI=3"], env=E, budget_s=200, spurious_possible=True, desc="derivatives of variables that were not selected come from the wrapped function"),
+    Job("cross-3-variables", "C12.cpp", ["HLO=4", "HHI=4"], fix="scheme=1", env=E, budget_s=400, desc="three-point scheme on a cubic in three variables, three orders of the selected variables: every cross derivative exact, function left at the requested point"),
+    Job("delegation", "C12.cpp", ["HLO=5", "HHI=5"], env=E, budget_s=200, spurious_possible=True, desc="derivatives of variables that were not selected come from the wrapped function"),
 ]
